@@ -1,10 +1,9 @@
-import re
 import string
 from enum import Enum
 from typing import Any, Optional
 
 from flamapy.core.transformations import ModelToText
-from flamapy.core.models.ast import ASTOperation
+from flamapy.core.models.ast import ASTOperation, Node
 from flamapy.metamodels.fm_metamodel.models import FeatureModel, Feature, Constraint
 
 
@@ -116,17 +115,34 @@ def read_constraints(const: Constraint) -> str:
     return result
 
 
+CLAFER_OPERATORS = {ASTOperation.NOT: 'not',
+                    ASTOperation.AND: '&&',
+                    ASTOperation.OR: '||',
+                    ASTOperation.XOR: 'xor',
+                    ASTOperation.IMPLIES: '=>',
+                    ASTOperation.EQUIVALENCE: '<=>',
+                    ASTOperation.REQUIRES: '=>',
+                    ASTOperation.EXCLUDES: '=> not'}
+
+
 def serialize_constraint(ctc: Constraint) -> str:
-    ctc_str = ctc.ast.pretty_str()
-    ctc_str = re.sub(fr'\b{ASTOperation.NOT.value}\b', 'not', ctc_str)
-    ctc_str = re.sub(fr'\b{ASTOperation.AND.value}\b', '&&', ctc_str)
-    ctc_str = re.sub(fr'\b{ASTOperation.OR.value}\b', '||', ctc_str)
-    ctc_str = re.sub(fr'\b{ASTOperation.XOR.value}\b', 'xor', ctc_str)
-    ctc_str = re.sub(fr'\b{ASTOperation.IMPLIES.value}\b', '=>', ctc_str)
-    ctc_str = re.sub(fr'\b{ASTOperation.EQUIVALENCE.value}\b', '<=>', ctc_str)
-    ctc_str = re.sub(fr'\b{ASTOperation.REQUIRES.value}\b', '=>', ctc_str)
-    ctc_str = re.sub(fr'\b{ASTOperation.EXCLUDES.value}\b', '=> not', ctc_str)
-    return f'[{ctc_str}]'
+    return f'[{serialize_node(ctc.ast.root)}]'
+
+
+def serialize_node(node: Node) -> str:
+    """Clafer text of a constraint: the layout of Node.pretty_str with Clafer's operators.
+
+    Only operator nodes are translated, so a feature may be named like an operator.
+    """
+    if not node.is_op() or node.is_aggregate_op():
+        return node.pretty_str()
+    symbol = CLAFER_OPERATORS.get(node.data, node.data.value)
+    operands = [f'({serialize_node(operand)})' if operand.is_binary_op()
+                else serialize_node(operand)
+                for operand in (node.left, node.right) if operand is not None]
+    if node.is_unary_op():
+        return f'{symbol} {operands[0]}'
+    return f' {symbol} '.join(operands)
 
 
 def attributes_definition(feature_model: FeatureModel) -> str:
